@@ -431,6 +431,8 @@ let run_case idx flags dtd limit (text : n list) (out : Buffer.t) =
                                                         "AttributesLimitReached"; "NamespacesLimitReached"; "UnexpectedEndOfStream"]) ->
        Printf.bprintf out "%s EV %s %s\n" idx r c
      | _ -> Printf.bprintf out "%s EV - -\n" idx);
+    (* the Display text of the error, from the format table regenerated from the source *)
+    Printf.bprintf out "%s EM %s\n" idx (hex_of_bytes (error_display e));
     if String.contains flags 'g' then Printf.bprintf out "%s G ok 0\n" idx
   | Panic s -> Printf.bprintf out "%s R mpanic %s\n" idx (site_name s)
   | OutOfFuel -> Printf.bprintf out "%s R mfuel\n" idx
